@@ -169,6 +169,11 @@ func (s *ScriptConn) Remaining() int {
 // Wrap puts the scripted conn under the real buffered standard.Conn (hook H1).
 func Wrap(c net.Conn, size int) network.Conn { return standard.NewConnForVerif(c, size) }
 
+// Release hands the buffers of a wrapped conn back to their pools (hook H1). Only call it when the code under test
+// is completely done with the connection; without it the buffers are only reclaimed by finalizers, which fall
+// behind when millions of connections are created.
+func Release(c network.Conn) { standard.ReleaseForVerif(c) }
+
 // Segment cuts stream at the given ascending positions (0<p<len).
 func Segment(stream []byte, cuts []int) [][]byte {
 	var out [][]byte
